@@ -293,8 +293,7 @@ def judge_window(ctx, case):
         elif route == 'bitarray=':
             f = lambda: cls(bitarray=bitarray.bitarray(src), **kw)  # noqa: E731
         else:
-            if not raw:
-                return              # an empty file cannot be memory-mapped (OSError/ValueError from mmap): not a window question
+            # (an empty file cannot be memory-mapped, so the library reads it instead: the window rules are the same)
             fn = os.path.join(tmpdir(), f'w{os.getpid()}.bin')
             with open(fn, 'wb') as g:
                 g.write(raw)
@@ -380,7 +379,7 @@ def zero_length_array(ctx):
 
 # ---- Array operations that set several items at once ------------------------------------------------------------
 ARRAY_MULTI_OPS = ['setslice', 'setslice-ext', 'setslice-resize', 'extend', 'extend-gen', 'init', 'insert', 'append', 'setitem', 'setslice-scaled-array',
-                   'iadd-scalar', 'imul-scalar']
+                   'iadd-scalar', 'imul-scalar', 'astype', 'astype']
 
 
 def gen_array_multi(ctx):
@@ -408,6 +407,21 @@ def gen_array_multi(ctx):
         fits = [lo <= f(v) <= hi for v in base]
         badpos = None if all(fits) else fits.index(False)
         vals = [k]
+    if op == 'astype':
+        # the values arrive as the items of an Array of another integer format (other signedness, or wider); astype converts VALUES
+        other_signed = (not signed) if rng.random() < 0.6 else signed
+        on = n if other_signed != signed else n + rng.choice([1, 4, 8])
+        if other_signed and on == 1:
+            on = 2
+        olo, ohi = (-(1 << (on - 1)), (1 << (on - 1)) - 1) if other_signed else (0, (1 << on) - 1)
+        both = lambda: rng.choice([max(lo, olo), min(hi, ohi), rng.randint(max(lo, olo), min(hi, ohi))])  # noqa: E731
+        only_src = [v for v in (olo, ohi, hi + 1, lo - 1, ohi - 1, olo + 1) if olo <= v <= ohi and not lo <= v <= hi]
+        vals = [both() for _ in range(rng.choice([1, 3, 5]))]
+        badpos = rng.choice([None, 0, len(vals) - 1, len(vals) // 2]) if only_src else None
+        if badpos is not None:
+            vals[badpos] = rng.choice(only_src)
+        return {'kind': 'array-multi', 'spec': ('int' if signed else 'uint') + str(n), 'base': base, 'op': op, 'values': vals, 'badpos': badpos, 'trailing': '',
+                'src_spec': ('int' if other_signed else 'uint') + str(on), 'spelling': rng.randrange(3)}
     if op == 'setslice-scaled-array':
         # the values come as the items of an Array whose dtype has the same name and length and a scale of 4
         if n > 32 or n < 3:
@@ -430,6 +444,16 @@ def judge_array_multi(ctx, case):
             exp = list(vals)
             a = got[1] if got[0] == 'ok' else None
             before = None
+        elif op == 'astype':
+            src = Array(case['src_spec'], vals)
+            nm, ln = spec.rstrip('0123456789'), int(spec[len(spec.rstrip('0123456789')):])
+            target = (spec, f'{nm}:{ln}', Dtype(nm, ln))[case.get('spelling', 0)]
+            got = call(lambda: src.astype(target))
+            exp = list(vals)
+            a = got[1] if got[0] == 'ok' else src
+            before = (list(vals), B(src.data)) if got[0] != 'ok' else None
+            if src.tolist() != list(vals):
+                ctx.mismatch('C15|Array-multi:astype|source|source-array-changed', case, f'{vals!r:.80} -> {src.tolist()!r:.80}')
         else:
             a = Array(spec, base, trailing_bits=('0b' + case['trailing']) if case['trailing'] else None)
             if op.startswith('extend') and case['trailing']:
